@@ -333,6 +333,14 @@ def _miri_cmd(check, cls, seed, lo, hi, mseed, rate):
     cmd = ["cargo", "+nightly", "miri", "run", "--offline", "--quiet", "--target-dir", os.path.join(check.TARGET, "miri"), "--", cls, str(seed), str(lo), str(hi)]
     return cmd, env
 
+def _miri_report_lines(err, n=40):
+    """The part of Miri's stderr that is the report (not the compiler warnings before it)."""
+    lines = err.strip().splitlines()
+    for i, l in enumerate(lines):
+        if "Undefined Behavior" in l or "memory leaked" in l or l.startswith("error"):
+            return lines[i:i + n]
+    return lines[-n:]
+
 def miri_attribute_seq(check, stdout, stderr):
     """Sequential histories: the kind of report plus the operations the failing history went through."""
     props = set()
@@ -459,7 +467,7 @@ def _miri_engine_class(check, pid, tier, seed, cls):
         path = os.path.join(check.REPLAYS, f"{pid}-miri-{cls}-{seed}-{last}-{mseed}.replay")
         with open(path, "w") as f:
             f.write(f"trisim-miri v1\nclass {cls}\nseed {seed}\nfrom {lo}\nto {last + 1}\nmiri-seed {mseed}\npreemption {rate}\n# class: {cls_name}\n# detail: {detail}\n")
-            f.write("# " + "\n# ".join(err.strip().splitlines()[:40]) + "\n")
+            f.write("# " + "\n# ".join(_miri_report_lines(err)) + "\n")
         props = miri_attribute_seq(check, out, err) if cls in MIRI_SEQ else miri_attribute(pid, err)
         if cls in MIRI_SEQ:
             # histories are independent: the replay is the failing history alone (for a leak, which
@@ -476,7 +484,7 @@ def _miri_engine_class(check, pid, tier, seed, cls):
                     props = miri_attribute_seq(check, hits[0][1], err)
             with open(path, "w") as f:
                 f.write(f"trisim-miri v1\nclass {cls}\nseed {seed}\nfrom {one}\nto {one + 1}\nmiri-seed {mseed}\npreemption {rate}\n# class: {cls_name}\n# detail: {detail}\n")
-                f.write("# " + "\n# ".join(err.strip().splitlines()[:40]) + "\n")
+                f.write("# " + "\n# ".join(_miri_report_lines(err)) + "\n")
         info = dict(cls=cls_name, detail=detail, replay=path, props=props)
         if pid in props:
             reported.append(info)
@@ -514,5 +522,5 @@ def miri_replay(check, path):
     subprocess.run([sys.executable, os.path.join(check.HERE, "tools", "gen_shadow.py")], env=dict(os.environ, VERIF_REPO=check.REPO))
     p = subprocess.run(cmd, cwd=os.path.join(check.HERE, "mirisim"), env=env, stdout=subprocess.PIPE, stderr=subprocess.PIPE, text=True)
     sys.stdout.write(p.stdout[-2000:])
-    sys.stdout.write("\n".join(p.stderr.splitlines()[:30]) + "\n")
+    sys.stdout.write("\n".join(_miri_report_lines(p.stderr, 30)) + "\n")
     return not (p.returncode == 0 and "RUN-OK" in p.stdout)
